@@ -24,7 +24,8 @@ def to_scoped(lines, tbase):
 GLOBAL_STATE = re.compile(r"^\s*(pub\s+)?static\s|thread_local!|lazy_static!|OnceCell|OnceLock|LazyLock|once_cell")
 
 
-def scan_global_state(root="/repo/src"):
+def scan_global_state(root=None):
+    root = root or os.path.join(C.REPO, "src")
     hits = []
     for d, _, fs in os.walk(root):
         for f in fs:
